@@ -131,7 +131,8 @@ def s2_tables(ctx):
             ps = summarise(ctx, fn, policy=default_policy, oracle=v)
             n += 1
             bad = [p for p in ps if p.outcome != 'raise']
-            wrong = [p for p in ps if p.outcome == 'raise' and p.state.exc[1] != exp]
+            # (an exception of an unread call passed on by a bare `raise` is not one of the entry's refusals: its type is whatever that call raised)
+            wrong = [p for p in ps if p.outcome == 'raise' and p.state.exc[0] == 'raise' and p.state.exc[1] != exp and not (len(p.state.exc) > 5 and p.state.exc[5] in ('table-miss', 'lookup-miss'))]
             inst = '%s: %s is refused with %s' % (qn, name, exp)
             if bad:
                 ctx.violation('C15.S2', inst, fn.site(), 'silent acceptance on path [%s]%s' % (
@@ -141,10 +142,10 @@ def s2_tables(ctx):
                 ctx.violation('C15.S2', inst, wrong[0].state.exc[2], 'refused with %s instead of the documented %s' % (wrong[0].state.exc[1], exp),
                               key='C15.S2|%s|%s|type' % (qn, name))
             else:
-                ctx.holds('C15.S2', inst, ps[0].state.exc[2] if ps else fn.site(), '%d path(s), all refuse' % len(ps))
+                ctx.holds('C15.S2', inst, next((p.state.exc[2] for p in ps if p.state.exc and p.state.exc[0] == 'raise'), fn.site()), '%d path(s), all refuse' % len(ps))
             # S3: the refusal leaves the summary without protected writes on the entry's own frame
             for p in ps:
-                if p.outcome == 'raise':
+                if p.outcome == 'raise' and p.state.exc[0] == 'raise':
                     from ..vbm import _pwrites
                     ws = _pwrites(p.events, PROTECTED)
                     ctx.require(not ws, 'C15.S3', '%s: %s refused before any protected write' % (qn, name), p.state.exc[2],
